@@ -32,8 +32,12 @@ RULE = ('msgs: random descriptions (1-3 modules incl. one named "None" sometimes
         '(bad JSON, non-array, short array, qualifiers not an object, non-numeric t, rejected payload, bad error '
         'report), callbacks of the three kinds at node/module/parameter level returning, raising UnregisterCallback or '
         'raising an exception at scripted invocation numbers, plus all op sequences of length <= 2 (thorough: 3) over an '
-        '11-letter alphabet on a fixed description; e2e: every datatype x valid values written through '
-        'SecopClient.setParameter / read through readParameter against a real node over loopback TCP (the Proxy '
+        '14-letter alphabet (incl. too short reports, qualifiers that are no object, data that is no array) on a fixed '
+        'description; e2e: every datatype x valid values written through '
+        'SecopClient.setParameter / read through readParameter against a real node over loopback TCP whose datatypes are '
+        'built with the constructors of frappy.datatypes (the client rebuilds them from the description), incl. structs '
+        'with optional members and one all-optional struct per node, written completely and partially (optional members '
+        'left out: the members passed reach the driver, the others keep their value) (the Proxy '
         'node variant of the design is not implemented); conc: one real SecopClient (rx/tx threads, fake AsynConn) with 1-3 '
         'caller threads each doing 1-2 calls of setParameter / readParameter / getParameter (mostly on one parameter), '
         'recording callbacks at node/module/parameter level, a peer script (answer the j-th outstanding request with a value '
@@ -710,6 +714,11 @@ class Tables:
         k = json.dumps(c, sort_keys=True)
         return self.values.setdefault(k, len(self.values))
 
+    def member(self, name):
+        if not hasattr(self, 'members'):
+            self.members = {}
+        return self.members.setdefault(name, len(self.members))
+
 
 def enc_item(x, T):
     pid = gal.nat(T.payload(x))
@@ -1216,6 +1225,9 @@ def exhaustive_cases(depth, scripts):
         ['msg', 'update m:value [1.5, {"t": 1}]'], ['msg', 'update m [2.5, {"t": 4000000}]'], ['msg', 'changed m [3, {}]'],
         ['msg', 'error_update m:value ["HardwareError", "RangeError: x", {}]'], ['msg', 'update m:value [1, {"t": "x"}]'],
         ['msg', 'update . [4, {}]'], ['msg', 'update m:stop [1, {}]'],
+        # report too short / qualifiers no object / data no array: IndexError, AttributeError, TypeError inside the
+        # receive loop -- the line is skipped, the loop goes on (seed C12-8 narrows the handler)
+        ['msg', 'update m:value [1.0]'], ['msg', 'update m:value [1.0, 5]'], ['msg', 'error_update m:value "ab"'],
     ]
     for seq in itertools.product(alpha, repeat=depth):
         ops = []
@@ -1265,6 +1277,10 @@ def shrink(case):
         return
     if case['kind'] == 're':
         yield from _re().shrink(case)
+        return
+    if case['kind'] == 'e2e':
+        from harness import c12_e2e
+        yield from c12_e2e.shrink(case)
         return
     if case['kind'] != 'msgs':
         return
